@@ -35,6 +35,7 @@ Proof.
   - exact Hnd.
   - exact (i_height _ I).
   - exact (i_seq _ I).
+  - apply keys_set_NoDup. exact (i_nodup _ I).
 Qed.
 
 (** the queue is unchanged and the pool keeps its end height *)
